@@ -125,6 +125,70 @@ def well_conditioned(ref):
     return True
 
 
+def template_well_conditioned(prog, full):
+    """The loaded template holds SymPy expressions, and SymPy orders and folds the
+    terms of a sum as it likes (`7 - {c} - 3e-3**pi` becomes `-c + 6.99999998813842`),
+    so the cancellation the property excludes has to be judged on *those* sums:
+    for every sum in every symbolic value, the terms at the given parameter
+    values must not be more than 1e5 times larger than the sum (that keeps the
+    rounding of the largest term below the comparison tolerance of 1e-8)."""
+    import re
+
+    import sympy as sym
+
+    def value_of(name):
+        v = full.get(name)
+        if v is not None and not isinstance(v, list):
+            return v
+        m = re.match(r"(.+)_(\d+)_(\d+)$", name)
+        if m and isinstance(full.get(m.group(1)), list):
+            try:
+                return full[m.group(1)][int(m.group(2))][int(m.group(3))]
+            except (IndexError, TypeError):
+                return None
+        return None
+
+    def exprs(v):
+        if isinstance(v, sym.Expr):
+            yield v
+        elif isinstance(v, (list, tuple)):
+            for x in v:
+                yield from exprs(x)
+        elif hasattr(v, "dtype") and v.dtype == object:
+            for x in v.flatten():
+                yield from exprs(x)
+
+    vals = []
+    for op in prog.operations:
+        vals.extend(op.get("args", []) or [])
+        vals.extend((op.get("kwargs", {}) or {}).values())
+    vals.extend(prog.variables.values())
+    for e in (x for v in vals for x in exprs(v)):
+        sub = {}
+        for s_ in e.free_symbols:
+            val = value_of(str(s_))
+            if val is None:
+                sub = None
+                break
+            sub[s_] = sym.Float(val, 17) if not isinstance(val, complex) else sym.sympify(val)
+        if sub is None:
+            continue
+        for node in sym.preorder_traversal(e):
+            if not node.is_Add:
+                continue
+            try:
+                if content.out_of_machine_range(node, sub):
+                    continue
+                terms = [complex(t.xreplace(sub).evalf(20)) for t in node.args]
+            except Exception:
+                continue
+            total = abs(sum(terms))
+            big = sum(abs(t) for t in terms)
+            if big > 0 and total < 1e-5 * big:
+                return False
+    return True
+
+
 def check_case(ctx, text, vals, whole=None, tags=()):
     """whole: {param name: (rows, cols)} for whole-array parameters."""
     kind = common.classify(text, allow_func=True)
@@ -195,9 +259,26 @@ def check_case(ctx, text, vals, whole=None, tags=()):
         return
     if not written:
         return
-    # 2. instantiate
+    # 2. instantiate (now and then with the same values as NumPy scalars / arrays, as computed call-site values are)
+    call_vals = full
+    if "numpy-values" in tags or ctx.rng("numpy-values", text).random() < 0.25:
+        import numpy as np
+
+        def as_numpy(v):
+            if isinstance(v, list):
+                return np.array(v)
+            if isinstance(v, bool):
+                return v
+            if isinstance(v, int):
+                return np.int64(v)
+            if isinstance(v, float):
+                return np.float64(v)
+            return v
+
+        call_vals = {k_: as_numpy(v_) for k_, v_ in full.items()}
+        ctx.hook("instantiated with NumPy values")
     try:
-        inst = prog(**full)
+        inst = prog(**call_vals)
     except Exception as e:
         if any(keyword.iskeyword(p) for p in written) and type(e).__name__ in ("TypeError", "SyntaxError"):
             ctx.violation("python-keyword-parameter-name", "instantiation raised %s for a parameter named like a Python keyword" % common.exc_text(e), witness)
@@ -207,6 +288,9 @@ def check_case(ctx, text, vals, whole=None, tags=()):
     if inst.parameters or inst.is_template():
         ctx.violation("instance-has-parameters", "instance still reports parameters %s" % sorted(inst.parameters), witness)
         return
+    if not template_well_conditioned(prog, full):
+        ctx.observe("values compared loosely: a sum in the loaded template cancels at these values")
+        return ctx.out_of_domain("a sum of the loaded template cancels catastrophically at these values")
     sub, exc = common.real_loads(sub_text)
     if exc is not None:
         ctx.violation("substituted-raises:" + common.exc_key(exc), "loading the substituted script raised %s" % common.exc_text(exc), witness)
@@ -222,7 +306,7 @@ def check_case(ctx, text, vals, whole=None, tags=()):
         full2[k_] = [[x * 1.5 + 0.25 for x in row] for row in v_] if isinstance(v_, list) else (v_ * 1.5 + 0.25)
     sub2_text = substitute(text, full2)
     k3 = common.classify(sub2_text)
-    if k3[0] == "ok" and well_conditioned(k3[1]):
+    if k3[0] == "ok" and well_conditioned(k3[1]) and template_well_conditioned(prog, full2):
         try:
             inst2 = prog(**full2)
         except Exception as e:
@@ -285,7 +369,7 @@ def run(ctx):
     g = common.grammar()
     if ctx.worker == 0:
         for e in common.corpus(ID):
-            check_case(ctx, e["text"], e["vals"], e.get("whole"), tags=["corpus"])
+            check_case(ctx, e["text"], e["vals"], e.get("whole"), tags=["corpus"] + (["numpy-values"] if e.get("numpy") else []))
     n = ctx.share(BUDGET[ctx.tier])
     for i in range(n):
         rng = ctx.rng(i)
